@@ -1,6 +1,6 @@
 (* C03 — the custom unparser round-trips every expression tree. *)
 From Coq Require Import String List ZArith Bool Arith.
-From OL Require Import PyAst Unparse Parse ParseProof.
+From OL Require Import PyAst Unparse Parse ParseProof ParseTie.
 From OLGen Require Import Tables.
 Import ListNotations.
 Local Open Scope string_scope.
@@ -13,7 +13,10 @@ Local Open Scope string_scope.
    starred, keyword and double-starred arguments in any number, list / tuple / set / dict displays with starred and
    double-starred elements, list / set / dict comprehensions with any number of `for` clauses and conditions,
    parenthesised groups, names and (opaque) literals.  Parse.pp is the unparser on that core, over the precedence ladder and the slot table
-   REGENERATED from expr_unparse.py on every run (its equality with Unparse.utoks is evaluated on every explored tree).
+   REGENERATED from expr_unparse.py on every run; C03_printer_is_unparser PROVES that it is the unparser model Unparse.utoks
+   (the model tied to expr_unparse.py by string equality) with every fragment split into words.
+
+   C03_roundtrip_unparser_core_partial is the statement on the unparser model itself.
 
    C03_roundtrip_core_partial: for EVERY tree of the core, of any depth and shape, the parser reads back exactly the tree
    from the printed tokens, consuming all of them.  PARTIAL with respect to the property: generator
@@ -23,6 +26,17 @@ Theorem C03_roundtrip_core_partial : forall e, core e = true -> is_starred e = f
   exists f0, forall f, f0 <= f -> pc f (MExpr slot_top) (pp slot_top e) = Some (e, []).
 Proof. exact roundtrip_core. Qed.
 Print Assumptions C03_roundtrip_core_partial.
+
+(* the printer of the theorem is the unparser model: for every tree of the core the fragments Unparse.utoks emits, split
+   into words (Parse.norm: keywords / punctuation / names / opaque literals), are exactly the tokens of Parse.pp *)
+Theorem C03_printer_is_unparser : forall e, core e = true -> norm (unparse_toks e) = pp slot_top e.
+Proof. exact norm_unparse_core. Qed.
+Print Assumptions C03_printer_is_unparser.
+
+Theorem C03_roundtrip_unparser_core_partial : forall e, core e = true -> is_starred e = false ->
+  exists f0, forall f, f0 <= f -> pc f (MExpr slot_top) (norm (unparse_toks e)) = Some (e, []).
+Proof. exact roundtrip_unparser_core. Qed.
+Print Assumptions C03_roundtrip_unparser_core_partial.
 
 (* the table facts the proof rests on, each a finite check over the regenerated table (a changed precedence or slot
    breaks one of them): an operand printed bare in a slot is followed by a token that does not continue it *)
